@@ -23,6 +23,8 @@ REQUIRED_THEOREMS = [
     "TapkeeVerif.Tsne.P_dense_symm",
     "TapkeeVerif.Tsne.sqDistance_not_metric",
     "TapkeeVerif.Tsne.bh_neighbours_true",
+    "TapkeeVerif.Tsne.vptree_build_inv",
+    "TapkeeVerif.Tsne.bh_neighbours_of_build",
     "TapkeeVerif.Tsne.bh_neighbours_witness",
     "TapkeeVerif.Tsne.symmetrizeCsr_inbounds",
     "TapkeeVerif.Tsne.symmetrizeCsr_half_sum",
